@@ -24,3 +24,4 @@ from props import c01_ext_readouts as _RO
 UNITS += _RO.UNITS
 from props import c01_ext_punch as _PU
 UNITS += _PU.UNITS
+from props.c01_ext2 import UNITS as _U2; UNITS = UNITS + _U2
